@@ -149,6 +149,9 @@ impl Sys {
             s.push_str(&format!("[{}:{}:{}:{:?}:{:?}:{}:{}]", t.level, t.start, st, t.writes, t.reads, t.gone as u8, t.id.as_u64()));
         }
         s.push_str(&format!("|e{}", self.mgr.current_epoch().as_u64()));
+        // observation of the real bookkeeping (hook H9): two histories are merged only if the
+        // manager itself is in the same state, not merely the harness's belief about it
+        s.push_str(&format!("|{:?}|{:?}", self.mgr.verif_dump(), self.twin.verif_dump()));
         s
     }
 
@@ -572,12 +575,15 @@ fn replay(hist: &[Ev], prop: &str, check_all: bool) -> (Sys, Vec<Violation>) {
     (sys, out)
 }
 
-pub fn cfg_for(prop: &'static str, tier: Tier) -> Cfg {
+pub fn cfg_for(prop: &'static str, tier: Tier) -> Vec<Cfg> {
+    let c = |max_tx, entities, levels: &[u8], reads, max_access, depth, max_gc| Cfg { prop, max_tx, entities, levels: levels.to_vec(), reads, max_access, depth, max_gc };
     match (prop, tier) {
-        ("C03", Tier::Quick) => Cfg { prop, max_tx: 3, entities: 2, levels: vec![0], reads: false, max_access: 2, depth: 10, max_gc: 2 },
-        ("C03", Tier::Thorough) => Cfg { prop, max_tx: 4, entities: 3, levels: vec![0, 2], reads: false, max_access: 2, depth: 13, max_gc: 2 },
-        ("C04", Tier::Quick) => Cfg { prop, max_tx: 3, entities: 2, levels: vec![1], reads: true, max_access: 2, depth: 10, max_gc: 1 },
-        (_, _) => Cfg { prop, max_tx: 3, entities: 2, levels: vec![1, 0], reads: true, max_access: 3, depth: 13, max_gc: 1 },
+        // layer A: 3 transactions x 2 entities x 2 accesses; layer B: 4 transactions (two readers pinning
+        // different epochs around a committed writer + an epoch-advancing commit) on a single contended entity
+        ("C03", Tier::Quick) => vec![c(3, 2, &[0], false, 2, 10, 2), c(4, 2, &[0], false, 1, 12, 2), c(5, 1, &[0], false, 1, 13, 1)],
+        ("C03", Tier::Thorough) => vec![c(3, 3, &[0, 2], false, 3, 14, 2), c(4, 2, &[0], false, 2, 12, 2), c(5, 1, &[0], false, 1, 14, 1)],
+        ("C04", Tier::Quick) => vec![c(3, 2, &[1], true, 2, 10, 1), c(4, 1, &[1], true, 1, 11, 1)],
+        (_, _) => vec![c(3, 2, &[1, 0], true, 3, 13, 1), c(4, 2, &[1], true, 2, 12, 1)],
     }
 }
 
@@ -641,15 +647,20 @@ pub fn explore(cfg: &Cfg, rep: &mut Report) {
         }
         depth_done = d + 1;
         frontier = next;
-        if rep.violations.len() > 20000 {
+        if rep.violations.len() > 200000 {
             rep.exhaustive = false;
             break;
         }
     }
-    rep.set("depth_completed", json!(depth_done));
-    rep.set("frontier_left_at_depth_bound", json!(frontier.len()));
-    rep.set("commit_outcomes_seen", json!(commit_outcomes.iter().collect::<Vec<_>>()));
-    rep.set("bounds", json!({"max_tx": cfg.max_tx, "entities": cfg.entities, "levels": cfg.levels, "reads": cfg.reads, "max_access_per_tx": cfg.max_access, "depth": cfg.depth, "max_gc": cfg.max_gc}));
+    let mut layers = rep.extra.get("layers").and_then(|l| l.as_array()).cloned().unwrap_or_default();
+    layers.push(json!({
+        "bounds": {"max_tx": cfg.max_tx, "entities": cfg.entities, "levels": cfg.levels, "reads": cfg.reads, "max_access_per_tx": cfg.max_access, "depth": cfg.depth, "max_gc": cfg.max_gc},
+        "depth_completed": depth_done,
+        "frontier_left_at_depth_bound": frontier.len(),
+        "states": seen.len(),
+        "commit_outcomes_seen": commit_outcomes.iter().collect::<Vec<_>>(),
+    }));
+    rep.set("layers", json!(layers));
 }
 
 pub fn replay_case(case: &Value, prop: &str) -> Vec<Violation> {
@@ -671,9 +682,13 @@ pub fn run(prop: &'static str, args: vcore::Args) -> i32 {
         return crate::replay_report(prop, replay_case(&case, prop));
     }
     let mut rep = Report::new(prop, tier, "model_checking");
-    let cfg = cfg_for(prop, tier);
+    let cfgs = cfg_for(prop, tier);
     rep.rule = "BFS over event histories of the real TransactionManager (begin/write/read/commit/abort/gc), deduplicated on the ledger key; a state is non-trivial/distinct when its ledger key is new".into();
-    explore(&cfg, &mut rep);
+    for cfg in &cfgs {
+        let t0 = rep.elapsed_s();
+        explore(cfg, &mut rep);
+        eprintln!("layer max_tx={} entities={} depth={}: states so far {} ({:.1}s)", cfg.max_tx, cfg.entities, cfg.depth, rep.states, rep.elapsed_s() - t0);
+    }
     rep.traces_validated = rep.transitions; // every transition is executed on the real manager
     rep.assumptions.push("data semantics of reads (which version a read observes) are attached by the harness: last version committed before the reader began, or its own write".into());
     rep.finish()
